@@ -131,7 +131,7 @@ func verifObserveInt(key string, val int) {
 func verifConcrete(s string) string { return s }
 func verifSymbolic() bool           { return false }
 func verifItoa(n int) string        { return strconv.Itoa(n) }
-func verifGlobalsUnchanged() bool   { return true }
+func verifGlobalsUnchanged() bool   { return verifGlobalSnapshotNative() == verifGlobalBaseline }
 func verifHasPrefix(s, prefix string) bool { return len(s) >= len(prefix) && s[:len(prefix)] == prefix }
 func verifCutErrors(on bool) {}
 
